@@ -293,12 +293,18 @@ def cmd_check(args):
                     tr = traces.get(o['name'], {})
                     inputs = {}
                     for nm, key in (u.replay_inputs or {}).items():
-                        v = tr.get('assignments', {}).get(key)
+                        asg = tr.get('assignments', {})
+                        v = asg.get(key)
+                        if v is None and key.startswith('*'):
+                            for k2 in asg:
+                                if k2.startswith('h_') and k2.endswith(key[1:]):
+                                    v = asg[k2]
                         if v is not None:
                             hx = hex_of(v.get('binary') or '')
                             inputs[nm] = hx if hx is not None else str(v.get('data'))
                     reproduced, rout = (None, 'no counterexample values extracted')
                     if inputs or (u.replay and not u.replay_inputs):
+                        inputs['job'] = jn
                         reproduced, rout = native_replay(u, inputs, work, R.REPO)
                     path = os.path.join(VERIF, 'replays', '%s-%s-%s-%d.json' % (pid, u.name, jn, idx))
                     with open(path, 'w') as f:
